@@ -74,6 +74,10 @@ def tlc_gen(work, triples):
            "UOUT": os.path.join(cdir, "unit.ndjson"), "TRIPLES": "yes" if triples else "no"}
     if os.path.exists(os.path.join(cdir, "complete")):
         return vlib.read_ndjson(env["OUT"])[0], vlib.read_ndjson(env["OUT2"]), env["UOUT"]
+    full = cdir[:-1] + "t"
+    if not triples and os.path.exists(os.path.join(full, "complete")):      # the complete space contains singles and pairs
+        return (vlib.read_ndjson(os.path.join(full, "meta.ndjson"))[0], [t for t in vlib.read_ndjson(os.path.join(full, "space.ndjson")) if len(t) < 3],
+                os.path.join(full, "unit.ndjson"))
     tmp = cdir + ".tmp%d" % os.getpid()
     os.makedirs(tmp, exist_ok=True)
     env = {k: (v.replace(cdir, tmp) if k != "TRIPLES" else v) for k, v in env.items()}
@@ -406,7 +410,7 @@ def main(tier, seed, replay=None):
     picks = choose_picks(tier, seed, meta, space)
     random.Random(seed).shuffle(picks)                  # any prefix is a sample of all strata (the run budget may cut the list)
     base_f = [pool.submit(run_baseline, meta, p, st) for p, st in baseline_specs(meta)]
-    budget = 100 if tier == "quick" else 2000           # seconds after which no further binary runs are started
+    budget = 90 if tier == "quick" else 2000           # seconds after which no further binary runs are started
     budget = int(os.environ.get("C23_BUDGET", budget))
     # render / run / judge are pipelined chunk by chunk (small first chunks so that the binary runs start early); the
     # rendering is always two chunks ahead of the runs
@@ -446,9 +450,12 @@ def main(tier, seed, replay=None):
             b["case"] += off
         bad += j["bad"]
         verdicts = [x + y for x, y in zip(verdicts, j["verdicts"])]
-    # a deviation that is not a known finding is reported only if an immediate re-run of the case reproduces it
+    # a deviation that no alternative reading of TLC explains (class other / refused / surface) and that is not a known
+    # finding is reported only if an immediate re-run of the case reproduces it (an explained deviation is the exact
+    # outcome of a deterministic alternative rule: a disturbed run cannot produce it by chance)
     known_keys = vlib.known_findings(PID)
-    suspects = sorted(set(b["case"] for b in bad if b["class"] not in known_keys))[:24]
+    unexplained = lambda b: b["class"].startswith(("other:", "refused:", "surface"))
+    suspects = sorted(set(b["case"] for b in bad if unexplained(b) and b["class"] not in known_keys))[:24]
     not_reproduced = 0
     if suspects:
         again = observe(meta, [all_rendered[i - 1] for i in suspects], pool)
@@ -456,7 +463,7 @@ def main(tier, seed, replay=None):
         confirmed = set((suspects[b["case"] - 1], b["run"], b["class"]) for b in j2["bad"])
         keep = []
         for b in bad:
-            if b["case"] in suspects and b["class"] not in known_keys and (b["case"], b["run"], b["class"]) not in confirmed:
+            if b["case"] in suspects and unexplained(b) and b["class"] not in known_keys and (b["case"], b["run"], b["class"]) not in confirmed:
                 not_reproduced += 1
                 continue
             keep.append(b)
